@@ -27,12 +27,14 @@ MANIFEST = {
                 "AffectedRows must equal TLC's expectation and sharding-column assignments must be rejected in every spelling.",
         "design_ref": "DESIGN.md section 5 C05, section 4.1 Relational",
     },
-    "level_note": "Schema t(id, g, v), literal assignments only, WHERE of at most two comparisons joined by AND / OR (the C01 pruning "
-                  "grammar with IN / BETWEEN / NOT and depth 3 is exercised by C01 on the same planner code; here the point is the "
-                  "effect on data), no LIMIT (excluded by the property), affected rows counted as rows actually changed (MySQL default); "
+    "level_note": "Schema t(id, g, v), literal assignments only, WHERE of at most two leaves (comparison, IS [NOT] NULL, [NOT] IN of two "
+                  "values, [NOT] BETWEEN) joined by AND / OR (deeper trees and NOT are exercised by C01 on the same planner code; here "
+                  "the point is the effect on data), INSERT of one or two rows, no LIMIT (excluded by the property), affected rows counted as rows actually changed (MySQL default); "
                   "the schema has no unique key, so ON DUPLICATE KEY never fires and an accepted INSERT is a plain insert; rules mod / "
                   "hash / range only; the backend is an environment model checked against TLC's Effect on every case; a nil result of "
-                  "a statement routed to no table is read as 0 affected rows (what the session layer sends).",
+                  "a statement routed to no table is read as 0 affected rows (what the session layer sends); the merged result is "
+                  "handed back to mysql.ResultPool after it is read, as ClientConn.writeOKResult does, so that state left in pooled "
+                  "objects by an earlier statement is part of what later statements meet.",
     "technique": "TLA+ spec of UPDATE/DELETE effects and placement + TLC-enumerated cases with expected tables, replayed on the real "
                  "planner through a fake plan.Executor",
 }
@@ -58,8 +60,9 @@ def run(ctx):
     ]
     if ctx.replay:
         case = rel.load_replay(ctx)
-        p = ctx.write_ndjson("replay.ndjson", [case])
-        rel.replay(ctx, "C05", p, 1)
+        # twice: a deviation that needs state left behind by an earlier statement (pooled result objects) shows on the second run
+        p = ctx.write_ndjson("replay.ndjson", [case, case])
+        rel.replay(ctx, "C05", p, 2)
         return
     thorough = ctx.thorough
     # thorough tier only: -coverage is slow on this module; the generation run checks the same properties on every case
